@@ -72,7 +72,19 @@ Class(c) == IF AnyAmbiguous(c) THEN "ambiguous" ELSE IF HasLimit(c) THEN (IF ~Al
             IF ~AllSafe(c) THEN "unsafe" ELSE IF ~Stratifiable(RulesOf(c)) THEN "unstrat"
             ELSE IF HasErr(RulesOf(c), Expected(c)) THEN "typeerr" ELSE "model"
 
-Bad(c) == {i \in DOMAIN c.variants : Verdict(c, c.variants[i]) # "fine"}
+\* C05: whatever the program means, two successful runs of (presentations of) it must agree
+Inconsistent(c, i) ==
+  /\ c.variants[i].outcome = "ok"
+  /\ \E j \in 1..(i - 1) : c.variants[j].outcome = "ok" /\ Observed(c, c.variants[j]) # Observed(c, c.variants[i])
+\* ... and a presentation must not be rejected when another one is evaluated
+Rejected(c, i) ==
+  /\ c.variants[i].outcome \in {"analysis_err", "parse_err"}
+  /\ \E j \in DOMAIN c.variants : c.variants[j].outcome = "ok"
+FullVerdict(c, i) ==
+  LET v == Verdict(c, c.variants[i]) IN
+  IF v = "fine" /\ Inconsistent(c, i) THEN "INCONSISTENT"
+  ELSE IF v = "fine" /\ Rejected(c, i) THEN "PRESENTATION_REJECTED" ELSE v
+Bad(c) == {i \in DOMAIN c.variants : FullVerdict(c, i) # "fine"}
 
 \* what one more application of the plain rules to the observed store would add: if the observed
 \* store is not closed under the rules, these are the facts the engine failed to derive next
@@ -84,9 +96,9 @@ Report(c) ==
   LET bad == Bad(c) IN
   /\ PrintT(<<"CLASS", c.id, Class(c)>>)
   /\ \A i \in bad :
-       PrintT(<<"MISSING", c.id, i, ToJson(IF Verdict(c, c.variants[i]) \in {"TRUNCATED_OK", "MODEL_MISMATCH"} /\ ~IsAgg(c)
+       PrintT(<<"MISSING", c.id, i, ToJson(IF FullVerdict(c, i) \in {"TRUNCATED_OK", "MODEL_MISMATCH"} /\ ~IsAgg(c)
                                            THEN NextMissing(c, c.variants[i]) ELSE {})>>) /\
-       PrintT(<<"MISMATCH", c.id, i, Verdict(c, c.variants[i]),
+       PrintT(<<"MISMATCH", c.id, i, FullVerdict(c, i),
                 IF Class(c) = "model" THEN ToJson(Expected(c))
                 ELSE IF Class(c) = "finite" THEN ToJson(StratifiedModelFuel(RulesOf(c), SetOf(c.edb), LimitFuel(c)))
                 ELSE "null">>)
